@@ -287,6 +287,17 @@ func initExterns() {
 			fv := &Val{T: tup.At(0).Type(), A: []string{ite(ok, f, "0")}}
 			return tupleOf(resT, fv, err)
 		}}
+	externs["os.RemoveAll"] = &externH{mods: fsMods, doc: "os.RemoveAll(path): on success nothing exists at path any more (entries below it are not modelled separately); on failure the file system is unconstrained at that path only",
+		fn: func(tr *FnCtx, st *State, args []*Val, resT types.Type, instr ssa.Instruction, mode string) *Val {
+			tr.use("os.RemoveAll(path) returning nil means path (and everything below it) no longer exists; it touches no other path")
+			err := tr.freshVal(resT, "rmerr")
+			ok := eq(err.one(), "0")
+			p := args[0].one()
+			fsS := tr.cur(st, compFsState)
+			left := tr.freshConst("rmleft", "Int")
+			tr.set(st, compFsState, store(fsS, p, ite(ok, "0", left)))
+			return err
+		}}
 	externs["os.Open"] = &externH{mods: fsMods, doc: "os.Open(path): fails with ErrNotExist iff no file exists at path; never changes the file system",
 		fn: func(tr *FnCtx, st *State, args []*Val, resT types.Type, instr ssa.Instruction, mode string) *Val {
 			tr.use("os.Open(path) returns an error satisfying errors.Is(err, os.ErrNotExist) iff the path has no file")
